@@ -34,7 +34,6 @@ SHAPE_KEYS: set[tuple[str, str]] = {
     ("C23.R3", "ops-between-phis"),
     ("C24.R3", "entry-init"),
     ("C24.R3", "others-init"),
-    ("C25.R1", "meet"),
     ("C25.R3", "results-without-dependency"),
     ("C25.R4", "initialize"),
     ("C26.R1", "not-exhaustive"),
